@@ -124,6 +124,17 @@ def node_domain(desc, n):
     return ''
 
 
+def enabled_nodes(desc, getval):
+    """ids of the nodes whose clock domain is enabled, judged from pre-edge values"""
+    gd = desc.get('group_driver') or {}
+    out = set()
+    for n in desc['nodes']:
+        k = node_domain(desc, n)
+        if k == '' or gd[k].get('en') is None or getval(gd[k]['en']) != 0:
+            out.add(n['id'])
+    return out
+
+
 def sig_widths(desc):
     sigw = {i['name']: i['w'] for i in desc['inputs']}
     for n in desc['nodes']:
@@ -187,12 +198,7 @@ class Built:
             for r in n['ins']:
                 self.cons.setdefault(r, []).append(tuple(n['grp']))
         self.outset = set(desc['outputs'])
-        self.domains = {}
-        self._setup_domains()
-
-    # ---- clock domains (C10)
-    def _setup_domains(self):
-        pass
+        self._pending_drv = []
 
     def group(self, path):
         path = tuple(path)
@@ -203,8 +209,13 @@ class Built:
             self.groups[path] = g
             drv = self.desc.get('group_driver', {}).get('/'.join(path))
             if drv is not None:
-                self._attach_driver(g, drv)
+                self._pending_drv.append((g, drv))     # attached once the current wire exists
         return g
+
+    def _flush_drivers(self):
+        while self._pending_drv:
+            g, drv = self._pending_drv.pop(0)
+            self._attach_driver(g, drv)
 
     def _attach_driver(self, g, drv):
         """clock domain seam (C05 perm_drivers, C10): the group gets its own ClockDriver, optionally
@@ -280,6 +291,7 @@ class Built:
         with seams.quiet():
             obj = k.build(parent, 'u%d' % nid, ins, outs, n['p'])
         self.objs[nid] = obj
+        self._flush_drivers()
         return obj
 
     def build(self, order=None):
@@ -289,6 +301,7 @@ class Built:
         # inputs nobody reads still exist as ports
         for i in self.desc['inputs']:
             self.wire(i['name'])
+        self._flush_drivers()
         return self
 
     def set_inputs(self, vec):
@@ -318,6 +331,7 @@ class RefModel:
             for k in range(len(n['ow'])):
                 self.vals['n%d.%d' % (n['id'], k)] = 0
         self.order = self._kahn()
+        self.unspec = set()
 
     def _kahn(self):
         byid = {n['id']: n for n in self.nodes}
@@ -356,7 +370,10 @@ class RefModel:
             nid = n['id']
             k = self.kind[nid]
             iv = [vals[r] for r in n['ins']] if k.mealy else None
-            o = k.outs(n['p'], self.state[nid], iv, self.iw[nid], n['ow'])
+            if nid in self.unspec or (iv is not None and None in iv):
+                o = [None] * len(n['ow'])       # unspecified (e.g. downstream of a division by zero)
+            else:
+                o = k.outs(n['p'], self.state[nid], iv, self.iw[nid], n['ow'])
             for j, v in enumerate(o):
                 vals['n%d.%d' % (nid, j)] = v
         return vals
@@ -374,6 +391,9 @@ class RefModel:
             if enabled is not None and nid not in enabled:
                 continue
             iv = [vals[r] for r in n['ins']]
+            if None in iv or nid in self.unspec:
+                self.unspec.add(nid)            # sticky: the state itself is no longer specified
+                continue
             new[nid] = k.nxt(n['p'], self.state[nid], iv, self.iw[nid], n['ow'])
         self.state.update(new)
         return self.settle()
@@ -467,6 +487,11 @@ class Twin:
         self.props = [l for l in leaves if l.isPropagatable()]
         self.clks = [l for l in leaves if l.isClockable()]
         self.order = self._kahn()
+        # leaf -> description node (for clock-domain decisions taken by the harness)
+        self.leaf_node = {}
+        for nid, o in self.b.objs.items():
+            for l in o.allLeaves():
+                self.leaf_node[id(l)] = nid
         self.settle()
 
     def _kahn(self):
